@@ -49,8 +49,9 @@ def _stage_spec(wd, modules):
             shutil.copy(os.path.join(SPEC, f), os.path.join(wd, f))
 
 
-def _java(args, env=None, timeout=600, cwd=None, xmx="8g", xss=None, deque=False):
-    cmd = ["java", "-XX:+UseParallelGC", f"-Xmx{xmx}"]
+def _java(args, env=None, timeout=600, cwd=None, xmx="8g", xss=None, deque=False, gc_threads=4):
+    # few GC threads: many TLC processes run side by side (trace shards, other checks)
+    cmd = ["java", "-XX:+UseParallelGC", f"-XX:ParallelGCThreads={gc_threads}", "-XX:CICompilerCount=2", f"-Xmx{xmx}"]
     if xss:
         cmd.append(f"-Xss{xss}")
     if deque:
@@ -175,7 +176,7 @@ def tlc_trace(name, module, cfg_text, trace_file, timeout=1800, xmx="8g", env=No
     e = {"TRACE": os.path.abspath(trace_file)}
     if env:
         e.update(env)
-    rc, out, wall = _java(args, env=e, timeout=timeout, cwd=wd, xmx=xmx, xss="1g", deque=True)
+    rc, out, wall = _java(args, env=e, timeout=timeout, cwd=wd, xmx=xmx, xss="1g", deque=True, gc_threads=2)
     with open(os.path.join(wd, "out.txt"), "w") as f:
         f.write(out)
     reports = _printed(out, "REPORT")
